@@ -21,6 +21,7 @@ ENC = {
     "aro": ["c", "n", "[nH]", "o", "s", "C", "-c", ":c", "(", ")", "1", "2", "[n+]", "=O"],
     "aro2": ["c", "c", "1", "2", "3", "(", ")", "[cH-]", "[c-]", "p", "[o+]", "[c]", "b", "n"],
     "caps": ["C", "=C", "#C", "N", "=N", "O", "=O", "[N+]", "[O-]", "(", ")", "[CH2]", "F", "P", "S", "=S"],
+    "aroring": ["c", "c", "n", "o", "1", "2", "-1", "-2", ":1", "=1", "(", ")", "[nH]", "s"],
     "hcaps": ["[NH4]", "[CH5]", "[OH3]", "[BH4]", "C", "N", "=O", ".", "(", ")", "[NH4+]", "[CH3]", "[SiH3]", "[OH2]"],
     "bad": ["C", "C", "1", "=1", "#1", "(", ")", "%", "[", "]", "=", ".", ":", "*", "c", "X", "[Xx]", "%1"],
 }
@@ -34,7 +35,12 @@ def group_allowed(vectors):
     allowed = defaultdict(set)
     for v in vectors:
         allowed["".join(v["inp"])].add((v["kind"], v["out"]))
+        if v["kind"] == "ok":
+            DEC_OF[v["out"]] = v.get("dec", "")
     return allowed
+
+
+DEC_OF = {}          # specification's decoding of each SELFIES string the specification's encoder emitted
 
 
 def _enc_replay_chunk(args):
@@ -46,6 +52,8 @@ def _enc_replay_chunk(args):
             kind, val, why = de.call_encoder(s, strict)
             if (kind, val) not in al:
                 out.append(s)
+            elif kind == "ok" and val in DEC_OF and de.call_decoder(val) != ("ok", DEC_OF[val]):
+                out.append(s)           # the real decoder on the real encoder's output
     finally:
         de.set_table("default")
     return out
@@ -86,9 +94,22 @@ def enc_gen_replay(rep, name, alphabet, table, maxlen, strict=True, quick=True, 
     return allowed
 
 
-def judge_roundtrips(rep, name, smiles_list, table, strict, own, spec_allowed=None, sources=None):
-    """RECORD -> TRACE for round trips; reports the mismatches that belong to the properties in `own`."""
+def judge_roundtrips(rep, name, smiles_list, table, strict, own, spec_allowed=None, sources=None, ok_sample=None):
+    """RECORD -> TRACE for round trips; reports the mismatches that belong to the properties in `own`.
+    ok_sample: judge every rejected record but only that many accepted ones (large cage corpora)."""
     recs = de.record_roundtrip(smiles_list, table, strict)
+    for rec in recs:
+        if rec["kind"].startswith("NotRepeatable"):
+            rep.violation("encoder(%r, strict=%s) called twice in a row returns different results: %s" % (
+                rec["smi"], strict, rec["kind"]), {"smiles": rec["smi"], "strict": strict, "table": table})
+    if ok_sample is not None:
+        rng_ = random.Random(seed() + len(recs))
+        okr = [r_ for r_ in recs if r_["kind"] == "ok"]
+        keep = set(id(r_) for r_ in (okr if len(okr) <= ok_sample else rng_.sample(okr, ok_sample)))
+        rep.traces += len(recs)
+        rep.configs.append({"config": "recorded_" + name, "records": len(recs), "accepted": len(okr),
+                            "judged_by_tlc": sum(1 for r_ in recs if r_["kind"] != "ok" or id(r_) in keep)})
+        recs = [r_ for r_ in recs if r_["kind"] != "ok" or id(r_) in keep]
     results, events = de.validate_roundtrip_trace(name, recs, table)
     for r in results:
         rep.states += r.distinct
@@ -178,8 +199,10 @@ def check_C03(tier):
                          "and built-in molecules in many spellings are recorded and judged by TLC (TraceRT) with the "
                          "specification's reader and decoder; non-trivial = accepted input")
     n = 5 if quick else 6
-    own = ("C03", "C02", "C14")
+    own = ("C03", "C02", "C14", "C06")      # strict acceptance of an over-capacity molecule also breaks the round trip
     q = 1 if quick else 0
+    enc_gen_replay(rep, "aroring_default", ENC["aroring"], "default", n + 1 - q, quick=quick, own=own + ("C05",))
+    enc_gen_replay(rep, "hcaps_default", ENC["hcaps"], "default", n - 2, quick=quick, own=own)
     for alpha, tab, ml in [("chain", "default", n - q), ("ring", "default", n), ("bracket", "default", n - 1 - q),
                            ("ringbranch", "default", n + 2 - q), ("caps", "octet_rule", n - 1 - q), ("aro", "default", n - 1)]:
         enc_gen_replay(rep, "%s_%s" % (alpha, tab), ENC[alpha], TABLES[tab], ml, quick=quick, own=own)
@@ -250,15 +273,26 @@ def check_C05(tier):
                          "back and verified, a rejection is checked against a search for an assignment; "
                          "non-trivial = contains an aromatic bond")
     n = 5 if quick else 6
-    own = ("C05",)
+    # a crash (other exception type) on one spelling of an aromatic molecule is also an order-dependent rejection
+    own = ("C05", "C09")
     q = 1 if quick else 0
     enc_gen_replay(rep, "aro_default", ENC["aro"], "default", n - q, quick=quick, own=own)
     enc_gen_replay(rep, "aro2_default", ENC["aro2"], "default", n - q, quick=quick, own=own)
     enc_gen_replay(rep, "aro_rings", ["c", "n", "1", "2", "(", ")", "o", "[nH]", "c"], "default", n + 2, quick=quick, own=own)
+    enc_gen_replay(rep, "aroring_default", ENC["aroring"], "default", n + 1 - q, quick=quick, own=own + ("C03",))
     # order independence at scale: many atom orders of fused, bridged and cage systems
     rng = random.Random(seed() * 11 + 5)
     cages = []
-    for s in FULLERENES + ["c1cc2cccc3ccc4cccc1c4c32", "c1cc2ccc3cccc4ccc(c1)c2c34", "c1ccc2cccc2cc1",
+    patches = ["c1c2ccc3c4c5c(c3)cccc5c3c(c1ccc3)c24", "c12c3ccc1cccc2cc1c3cc2ccc3c(ccc3)c12",
+               "c1cc2ccc3ccc4ccc5ccc1c1c2c3c4c51", "c1ccc2c(c1)c1cccc3cccc2c31", "c1cc2cc3ccc4cc5ccc6cc1c1c2c3c4c5c61"]
+    many = []
+    for s in FULLERENES + patches:
+        many += gs.respell(s, rng, 400 if quick else 3000)
+    many = sorted(set(many))
+    rep.notes["cage_spellings_recorded"] = len(many)
+    judge_roundtrips(rep, "cages_strict", many, relaxed_table(), True, own, ok_sample=(60 if quick else 600))
+    judge_roundtrips(rep, "cages_lax", many[:: (3 if quick else 1)], relaxed_table(), False, own, ok_sample=(60 if quick else 600))
+    for s in FULLERENES + patches + ["c1cc2cccc3ccc4cccc1c4c32", "c1cc2ccc3cccc4ccc(c1)c2c34", "c1ccc2cccc2cc1",
                            "c1cc2cc3cc4cc5ccccc5cc4cc3cc2cc1", "c1ccc2c(c1)[nH]c1ccccc12", "Cn1cnc2c1c(=O)n(C)c(=O)n2C",
                            "c1ccc2c(c1)c1nc3nc(nc4[nH]c(nc5nc(nc2[nH]1)c1ccccc15)c1ccccc41)c1ccccc13"]:
         cages.append(s)
@@ -488,6 +522,8 @@ def check_C10(tier):
     inv = ["OutInGrammar", "WellFormedOut", "ReencodeFixpoint", "TwoOutcomes"]
     enc_gen_replay(rep, "bracket_default", ENC["bracket"], "default", n - 1, quick=quick, own=own, invariants=inv)
     enc_gen_replay(rep, "hcaps_default", ENC["hcaps"], "default", n - 2, quick=quick, own=own, invariants=inv)
+    enc_gen_replay(rep, "ring_marks", ["C", "/C", "\\C", "=C", "/1", "\\1", "1", "=1", "F", "(", ")", "/2", "2"], "default",
+                   n, quick=quick, own=own, invariants=inv)
     enc_gen_replay(rep, "ringbranch_default", ENC["ringbranch"], "default", n + 2, quick=quick, own=own, invariants=inv)
     enc_gen_replay(rep, "stereo_default", ENC["stereo"], "default", n - 1, quick=quick, own=own, invariants=inv)
     # equivalent spellings of an atom give the same symbol
